@@ -349,10 +349,10 @@ func (c02) Gen(rng *rand.Rand, tier string, idx int) Case {
 	var c Case
 	if idx%15 == 14 {
 		// SQL-level stage with ALLOWEDLATENESS: re-deliveries carry the same window bounds / window_id
-		sz := []int64{1000, 500}[rng.Intn(2)]
+		sz := []int64{1000, 500, 90000}[rng.Intn(3)] // 90000 ms: tolerance and allowance are compound durations in Go's spelling ('1m30s', '4m30s')
 		o := []int64{0, sz / 2, sz}[rng.Intn(3)]
 		l := []int64{sz, 3 * sz, 20 * sz}[rng.Intn(3)]
-		c.Cfg = [][]string{{"kind", "sqltumbling"}, {"size", itoa(sz)}, {"ooo", itoa(o)}, {"late", itoa(l)}, {"now", "0"}}
+		c.Cfg = [][]string{{"kind", "sqltumbling"}, {"size", itoa(sz)}, {"ooo", itoa(o)}, {"late", itoa(l)}, {"now", "0"}, {"spell", []string{"ms", "go"}[rng.Intn(2)]}}
 		genSQLWindow(rng, &c, sz, o+l/2)
 		c.Stat = append(c.Stat, "sql-lateness>0")
 		return c
